@@ -165,6 +165,11 @@ Proof.
   rewrite unchanged_refl; reflexivity.
 Qed.
 
+Lemma view_fields c w e cmd um :
+  v_env (view_of_model c w e cmd um) = e /\ v_cmd (view_of_model c w e cmd um) = cmd
+  /\ v_users (view_of_model c w e cmd um) = um.
+Proof. unfold view_of_model. destruct (run _ _ _ _ _). auto. Qed.
+
 Section Protect.
 Variables (c : cfgT) (w : wobs) (e : env) (um : users_map).
 Hypothesis He : plain_env e = true.
@@ -210,36 +215,22 @@ Proof.
   cbn in Hne. apply negb_true_iff, N.eqb_neq in Hne. exact Hne.
 Qed.
 
-Theorem C04_remove_proof n fl : C04.step_spec c w (view_of_model c w e (CRemove n fl) um) = true.
+(* the direct statements: the run fails and the state is the initial one (world untouched,
+   no operation counted or logged) *)
+Theorem remove_protected n fl x : lm_get m n = Some x -> C04.protected c tab um x = true ->
+  run e c um (CRemove n fl) (world_of w) = (Fail, s0_of (world_of w)).
 Proof.
-  unfold C04.step_spec.
-  assert (Ev : v_env (view_of_model c w e (CRemove n fl) um) = e
-            /\ v_cmd (view_of_model c w e (CRemove n fl) um) = CRemove n fl
-            /\ v_users (view_of_model c w e (CRemove n fl) um) = um).
-  { unfold view_of_model. destruct (run _ _ _ _ _). auto. }
-  destruct Ev as (E1 & E2 & E3). rewrite E1, E2, E3, He. cbn [negb]. fold m. fold tab.
-  destruct (lm_get m n) as [x|] eqn:Ex; [|reflexivity]. rewrite orb_false_r.
-  destruct (C04.protected c tab um x) eqn:Hp; [|reflexivity]. cbn [negb orb].
-  destruct (run_known (CRemove n fl) eq_refl) as [R|(ld & HF & R)]; [now apply refused_of_fail|].
-  apply refused_of_fail. rewrite R. cbn [cmd_body].
-  destruct (protected_target_known n x ld Ex HF Hp) as (l & Hgl & Hb).
+  intros Ex Hp. destruct (run_known (CRemove n fl) eq_refl) as [R|(ld & HF & R)]; [exact R|].
+  rewrite R. cbn [cmd_body]. destruct (protected_target_known n x ld Ex HF Hp) as (l & Hgl & Hb).
   rewrite (remove_refused e c ld n fl _ l Hgl Hb). reflexivity.
 Qed.
 
-Theorem C04_rename_proof n n2 : no_error_children m n = true ->
-  C04.step_spec c w (view_of_model c w e (CRename n n2) um) = true.
+Theorem rename_protected n n2 x : no_error_children m n = true -> lm_get m n = Some x ->
+  (C04.protected c tab um x || existsb (fun k => beq (l_base k) n && C04.protected c tab um k) m) = true ->
+  run e c um (CRename n n2) (world_of w) = (Fail, s0_of (world_of w)).
 Proof.
-  intros Hne. unfold C04.step_spec.
-  assert (Ev : v_env (view_of_model c w e (CRename n n2) um) = e
-            /\ v_cmd (view_of_model c w e (CRename n n2) um) = CRename n n2
-            /\ v_users (view_of_model c w e (CRename n n2) um) = um).
-  { unfold view_of_model. destruct (run _ _ _ _ _). auto. }
-  destruct Ev as (E1 & E2 & E3). rewrite E1, E2, E3, He. cbn [negb]. fold m. fold tab.
-  destruct (lm_get m n) as [x|] eqn:Ex; [|reflexivity]. cbn [andb].
-  destruct (C04.protected c tab um x || existsb _ m) eqn:Hp; [|reflexivity]. cbn [negb orb].
-  destruct (run_known (CRename n n2) eq_refl) as [R|(ld & HF & R)]; [now apply refused_of_fail|].
-  apply refused_of_fail. rewrite R. cbn [cmd_body].
-  destruct (wf_layers_spec _ _ Hl) as [NDn _].
+  intros Hne Ex Hp. destruct (run_known (CRename n n2) eq_refl) as [R|(ld & HF & R)]; [exact R|].
+  rewrite R. cbn [cmd_body]. destruct (wf_layers_spec _ _ Hl) as [NDn _].
   apply orb_true_iff in Hp as [Hp|Hp].
   - destruct (protected_target_known n x ld Ex HF Hp) as (l & Hgl & Hb).
     rewrite (rename_refused e c ld n n2 _ l Hgl); [reflexivity|]. destruct Hb; auto.
@@ -250,19 +241,12 @@ Proof.
     rewrite (forall2_names _ _ _ HF (known_name c tab um)). exact NDn.
 Qed.
 
-Theorem C04_rebase_proof n n2 : no_error_children m n = true ->
-  C04.step_spec c w (view_of_model c w e (CRebase n n2) um) = true.
+Theorem rebase_protected n n2 x : no_error_children m n = true -> lm_get m n = Some x ->
+  (C04.protected c tab um x || existsb (fun k => beq (l_base k) n && C04.protected c tab um k) m) = true ->
+  run e c um (CRebase n n2) (world_of w) = (Fail, s0_of (world_of w)).
 Proof.
-  intros Hne. unfold C04.step_spec.
-  assert (Ev : v_env (view_of_model c w e (CRebase n n2) um) = e
-            /\ v_cmd (view_of_model c w e (CRebase n n2) um) = CRebase n n2
-            /\ v_users (view_of_model c w e (CRebase n n2) um) = um).
-  { unfold view_of_model. destruct (run _ _ _ _ _). auto. }
-  destruct Ev as (E1 & E2 & E3). rewrite E1, E2, E3, He. cbn [negb]. fold m. fold tab.
-  destruct (lm_get m n) as [x|] eqn:Ex; [|reflexivity]. cbn [andb].
-  destruct (C04.protected c tab um x || existsb _ m) eqn:Hp; [|reflexivity]. cbn [negb orb].
-  destruct (run_known (CRebase n n2) eq_refl) as [R|(ld & HF & R)]; [now apply refused_of_fail|].
-  apply refused_of_fail. rewrite R. cbn [cmd_body].
+  intros Hne Ex Hp. destruct (run_known (CRebase n n2) eq_refl) as [R|(ld & HF & R)]; [exact R|].
+  rewrite R. cbn [cmd_body].
   apply orb_true_iff in Hp as [Hp|Hp].
   - destruct (protected_target_known n x ld Ex HF Hp) as (l & Hgl & Hb).
     rewrite (rebase_refused e c ld n n2 _ l Hgl); [reflexivity|]. destruct Hb; auto.
@@ -270,6 +254,35 @@ Proof.
     destruct (protected_child_known n ld HF Hne Hp) as (lk & Hlk & Hb & Hbusy).
     rewrite (rebase_refused e c ld n n2 _ l Hgl); [reflexivity|]. right. right.
     apply existsb_exists. exists lk. split; [exact Hlk|]. now rewrite Hb, Hbusy.
+Qed.
+
+Theorem C04_remove_proof n fl : C04.step_spec c w (view_of_model c w e (CRemove n fl) um) = true.
+Proof.
+  unfold C04.step_spec. destruct (view_fields c w e (CRemove n fl) um) as (E1 & E2 & E3).
+  rewrite E1, E2, E3, He. cbn [negb]. fold m. fold tab.
+  destruct (lm_get m n) as [x|] eqn:Ex; [|reflexivity]. rewrite orb_false_r.
+  destruct (C04.protected c tab um x) eqn:Hp; [|reflexivity]. cbn [negb orb].
+  apply refused_of_fail. eapply remove_protected; eauto.
+Qed.
+
+Theorem C04_rename_proof n n2 : no_error_children m n = true ->
+  C04.step_spec c w (view_of_model c w e (CRename n n2) um) = true.
+Proof.
+  intros Hne. unfold C04.step_spec. destruct (view_fields c w e (CRename n n2) um) as (E1 & E2 & E3).
+  rewrite E1, E2, E3, He. cbn [negb]. fold m. fold tab.
+  destruct (lm_get m n) as [x|] eqn:Ex; [|reflexivity]. cbn [andb].
+  destruct (C04.protected c tab um x || existsb _ m) eqn:Hp; [|reflexivity]. cbn [negb orb].
+  apply refused_of_fail. eapply rename_protected; eauto.
+Qed.
+
+Theorem C04_rebase_proof n n2 : no_error_children m n = true ->
+  C04.step_spec c w (view_of_model c w e (CRebase n n2) um) = true.
+Proof.
+  intros Hne. unfold C04.step_spec. destruct (view_fields c w e (CRebase n n2) um) as (E1 & E2 & E3).
+  rewrite E1, E2, E3, He. cbn [negb]. fold m. fold tab.
+  destruct (lm_get m n) as [x|] eqn:Ex; [|reflexivity]. cbn [andb].
+  destruct (C04.protected c tab um x || existsb _ m) eqn:Hp; [|reflexivity]. cbn [negb orb].
+  apply refused_of_fail. eapply rebase_protected; eauto.
 Qed.
 
 End Protect.
@@ -445,10 +458,6 @@ Definition C04_hyp (c : cfgT) (w : wobs) (cmd : command) : bool :=
      | _ => true
      end.
 
-Lemma view_fields c w e cmd um :
-  v_env (view_of_model c w e cmd um) = e /\ v_cmd (view_of_model c w e cmd um) = cmd
-  /\ v_users (view_of_model c w e cmd um) = um.
-Proof. unfold view_of_model. destruct (run _ _ _ _ _). auto. Qed.
 
 Theorem C04_model_proof : forall c w e cmd um, plain_env e = true -> C04_hyp c w cmd = true ->
   C04.step_spec c w (view_of_model c w e cmd um) = true.
